@@ -27,7 +27,7 @@ type Spec struct {
 	Family    string // "direct": the armed operator is last, its output is the result; "reduce": ... -> Reduce(sum) tail
 	Site      string // reader writer map filter flatmap fold combiner repart scan none
 	Layout    string // key layout: distinct | fold | G | table | buffer | merge
-	Mode      string // err tempbase tempnet panic oorhi oorneg
+	Mode      string // err tempbase tempnet tempsentinel panic oorhi oorneg
 	Pers      string // always | once
 	Chunk     int    // internal vector size in force in this process
 	N         int    // rows per source shard
@@ -67,9 +67,19 @@ func (c *caseState) reset() {
 func (s *Spec) trip() bool {
 	c := &table[s.Case]
 	atomic.AddInt64(&c.reached, 1)
-	if s.Pers == "once" {
-		if !atomic.CompareAndSwapInt64(&c.fired, 0, 1) {
-			return false
+	if s.Pers == "once" || s.Pers == "twice" {
+		limit := int64(1)
+		if s.Pers == "twice" {
+			limit = 2
+		}
+		for {
+			n := atomic.LoadInt64(&c.fired)
+			if n >= limit {
+				return false
+			}
+			if atomic.CompareAndSwapInt64(&c.fired, n, n+1) {
+				break
+			}
 		}
 	} else {
 		atomic.AddInt64(&c.fired, 1)
@@ -131,6 +141,11 @@ func classifyStack() string {
 	return where + what
 }
 
+// errSentinel is ONE package-level error value, returned (not copied) by every
+// failure of mode "tempsentinel" in this process: the way applications usually
+// declare their transient errors. Nothing in bigslice may modify it.
+var errSentinel = errors.E(errors.Temporary, "c06-user-sentinel: transient failure")
+
 type netTempErr struct{ msg string }
 
 func (e netTempErr) Error() string   { return e.msg }
@@ -144,6 +159,8 @@ func (s *Spec) fail() error {
 		return fmt.Errorf("%s", s.Msg)
 	case "tempbase":
 		return errors.E(errors.Temporary, s.Msg)
+	case "tempsentinel":
+		return errSentinel
 	case "tempnet":
 		return netTempErr{s.Msg}
 	case "panic":
